@@ -128,6 +128,20 @@ struct C03
                     if(!ra(q, rs, gl + "[i]")) return;
                     if(rs.addr_off != (long long)g.entries[ei].start) return fail("entry-position", gl + "[" + std::to_string(ei) + "] found at offset " + std::to_string(rs.addr_off) + ", expected " + std::to_string(g.entries[ei].start));
                 }
+            if(lv.groups[gi].flat)
+            {
+                // iterator arithmetic: *(begin()+i), begin()[i], *(end()-(i+1))
+                q.sub = G_ITER_INDEXED;
+                if(!ra(q, rs, gl + " iterator arithmetic")) return;
+                const std::size_t cnt = g.entries.size();
+                if(rs.events.size() != 3 * cnt) return fail("group-size", "iterator arithmetic over " + gl + " visited " + std::to_string(rs.events.size() / 3) + " entries, wire has " + std::to_string(cnt));
+                for(std::size_t ei = 0; ei < cnt; ei++)
+                {
+                    const long long want[3] = {(long long)g.entries[ei].start, (long long)g.entries[ei].start, (long long)g.entries[cnt - 1 - ei].start};
+                    for(int k = 0; k < 3; k++)
+                        if(rs.events[3 * ei + (std::size_t)k].addr_off != want[k]) return fail("entry-position", gl + (k == 0 ? " *(begin()+" : k == 1 ? " begin()[" : " *(end()-1-") + std::to_string(ei) + ") found at offset " + std::to_string(rs.events[3 * ei + (std::size_t)k].addr_off) + ", expected " + std::to_string(want[k]));
+                }
+            }
             for(std::size_t ei = 0; ei < g.entries.size() && !res.violation; ei++)
             {
                 auto p2 = path;
